@@ -171,6 +171,13 @@ def walkPar (p : Option Layer) : Parent :=
   | some q => parentOf q
   | none => .other
 
+/-- the next-header octet in front of a (rest of a) chain of extension headers: the type of its first header, `last` when
+    the chain is empty — what the fixed header and every extension header carry -/
+def nextOf (es : List (Nat × Bytes)) (last : Nat) : Nat :=
+  match es with
+  | [] => last
+  | (t, _) :: _ => t
+
 /-- the next-header values written into the IPv6 extension chain: header X carries the type of header X+1 and the
     last one the tag of the inner PDU (`set_last_next_header`) -/
 def ip6Chain (exts : List (Nat × Bytes)) (last : Nat) : List (Nat × Bytes) :=
@@ -237,9 +244,7 @@ def write (l : Layer) (rest : List Layer) (inner : Bytes) (parent : Option Layer
     ipTail (hdr ++ o ++ zeros (pad4 (ipOptSize opts) - ipOptSize opts) ++ inner) hs
   | .ip6 tc flow hop nh src dst exts =>
     let lastNh := ip6LastNextHeader nh rest
-    let first := match exts with
-      | [] => lastNh
-      | (t, _) :: _ => t
+    let first := nextOf exts lastNh
     [b8 (6 * 16 + tc / 16 % 16), b8 (tc % 16 * 16 + flow / 65536 % 16), b8 (flow / 256), b8 flow]
       ++ w16 (totalSz - 40) ++ [b8 first, b8 hop] ++ src ++ dst
       ++ ((ip6Chain exts lastNh).map writeIp6Ext).flatten ++ inner
